@@ -513,7 +513,7 @@ pub fn check(ctx: &Ctx) -> i32 {
         }
     } else {
         // random larger substitutions
-        let n = ctx.tier.pick(1500, 30000);
+        let n = ctx.tier.pick(1500, 100000);
         let run = |b: &[u8]| run_config(ctx, &random_config(b));
         let out = drive(&mut ev, ctx.seed, 11, n, 20, 200, 300, &run);
         if let Some((bytes, f)) = out.failure {
